@@ -103,6 +103,26 @@ func TestVerifReplayPathStrings(t *testing.T) {
 		}
 	}
 	fmt.Printf("REPLAY-CASES fn=%s n=%d\n", fnK, k)
+	// prefixes are stripped from the paths of device notifications: a key value that merely contains a ':' is not a prefixed name
+	fnSP := "utils.StripPathElemPrefixPath"
+	sp := 0
+	for _, v := range []string{"2001:db8::1", "00:11:22:33:44:55", "http://h/p:q", "plain", "pfx:name"} {
+		sp++
+		p := &sdcpb.Path{Elem: []*sdcpb.PathElem{{Name: "m:list", Key: map[string]string{"m:k": v}}, {Name: "m:leaf"}}}
+		StripPathElemPrefixPath(p)
+		want := v
+		if v == "pfx:name" {
+			want = "name" // an identity given with its prefix
+		}
+		if got := p.GetElem()[0].GetKey()["k"]; got != want || p.GetElem()[0].GetName() != "list" || p.GetElem()[1].GetName() != "leaf" {
+			clause := "key_values_are_kept"
+			if strings.Count(v, ":") > 1 || strings.Contains(v, "//") {
+				clause += ".known" // recorded finding: everything up to the first ':' of each '/'-separated piece of a key value is dropped
+			}
+			fmt.Printf("REPLAY-FAIL fn=%s clause=%s input=list[k=%s]/leaf with module prefixes why=stripped to %s\n", fnSP, clause, v, ToXPath(p, false))
+		}
+	}
+	fmt.Printf("REPLAY-CASES fn=%s n=%d\n", fnSP, sp)
 	// the element sequence of a path: the key values of an entry follow in the order of their key names, however many
 	// keys the list has and however often it is asked (the keys sit in a map)
 	fnS := "utils.sortedVals"
